@@ -100,6 +100,11 @@ pub fn encode_gt(gt: &Gt, width: usize, out: &mut Vec<u8>) {
 }
 
 pub fn record_bytes(cs: &CallSet, r: &Record) -> Vec<u8> {
+    record_bytes_with_gt_idx(cs, r, IDX_GT)
+}
+
+/// `gt_idx`: dictionary index of the GT key (the repository's fixtures use 1).
+pub fn record_bytes_with_gt_idx(cs: &CallSet, r: &Record, gt_idx: i32) -> Vec<u8> {
     let n_sample = cs.samples.len();
     let alts = r.alts();
     let n_allele = 1 + alts.len();
@@ -130,7 +135,7 @@ pub fn record_bytes(cs: &CallSet, r: &Record) -> Vec<u8> {
     let mut indiv = Vec::new();
     if r.has_gt {
         n_fmt += 1;
-        typed_int(IDX_GT, &mut indiv);
+        typed_int(gt_idx, &mut indiv);
         let width = r.gts.iter().map(|g| g.alleles.len()).max().unwrap_or(2);
         typed_descriptor(width, 1, &mut indiv);
         for g in &r.gts {
